@@ -75,7 +75,12 @@ def rand_link(rng, hostile=0.5, name=None):
                         rand_byproducts(rng, hostile), env)
 
 
+LEAP_EXPIRIES = ["2016-12-31T23:59:60Z", "2015-06-30T23:59:60Z", "2030-12-31T23:59:60Z"]
+
+
 def rand_expiry(rng):
+    if rng.random() < 0.08:
+        return rng.choice(LEAP_EXPIRIES)
     y = rng.choice([1970, 1999, 2000, 2024, 2030, 2038, 2100, 9999, 2027])
     return "%04d-%02d-%02dT%02d:%02d:%02dZ" % (y, rng.randrange(1, 13), rng.randrange(1, 29), rng.randrange(24),
                                                rng.randrange(60), rng.randrange(60))
